@@ -138,6 +138,13 @@ def _ctor_arm(t, v):
 
 def _let(pat, scr):
     """the condition `let PAT = SCR`; `let Some(..) = xs.first() / xs.split_first()` (binders only) is `!xs.is_empty()`"""
+    alts = [a.strip() for a in _split_top(pat, "|")] if "|" in pat else [pat]
+    if len(alts) > 1 and all(re.fullmatch(r"[A-Za-z_][\w:]*(\([$_]\))?", a) for a in alts):
+        c = None
+        for a in alts:
+            k = _let(a, scr)            # `let A(_) | B(_) = s`  is  `s is A || s is B`
+            c = k if c is None else ("op", "||", [c, k])
+        return c
     if re.fullmatch(r"[A-Za-z_][\w:]*\(_\)", pat):
         pat = pat[:-3] + "($)"          # whether the payload is bound or ignored does not matter for the test
     if scr[0] == "match" and re.fullmatch(r"[A-Za-z_][\w:]*\([$_]\)", pat):
